@@ -174,6 +174,13 @@ class CEval:
             if n is None:
                 return Node("FixedSized", None, ("field", ast.unparse(a[0])), [sub], {}, ln)
             return Node("FixedSized", None, ("fixed", n), [sub], {"mod": n % 8}, ln)
+        if short == "PaddedString":
+            # exactly n bytes; the value is what remains after the trailing NUL (pad) bytes are stripped - NOT the text up to
+            # the first NUL
+            n = self.const_int(a[0])
+            size = ("fixed", n) if n is not None else ("field", ast.unparse(a[0]))
+            return Node("PaddedString", None, size, [], {"mod": (n % 8) if n is not None else None,
+                                                          "encoding": consteval.evaluate(self.repo, self.mod, a[1]) if len(a) > 1 else None}, ln)
         if short in ("CString", "PascalString"):
             return Node(short, None, ("content", "terminated by a NUL byte found in the data"), [],
                         {"encoding": consteval.evaluate(self.repo, self.mod, a[0]) if a else None}, ln)
